@@ -28,7 +28,10 @@ CONSTANTS Containers,   \* container names
           Pool,         \* sequence: vips the network service can hand out
           ExtIp,        \* the node's external address
           RawSpace,     \* container -> set of raw manifests it may be started with
-          RealPorts,    \* container -> sequence of host ports the allocator yields (model checking)
+          RealPorts,    \* container -> sequence of host ports the allocator yields when AllocAny = FALSE
+          AllocAny,     \* TRUE: AllocPorts may return any outcome of the allocation algorithm
+          PortPool,     \* "prod" / "nonprod" -> set of ports of that range (model checking)
+          Busy,         \* ports some other process on the host is bound to (skipped: EADDRINUSE)
           Pids,         \* container -> pid string of its `treadmill run` process
           Dns,          \* host name -> address (pinned resolution)
           MaxFinish,    \* how often a (successful) finish may run per container
@@ -47,20 +50,71 @@ PoolSet == SeqSet(Pool)
 (* ------------------------------------------------------------------------ *)
 (* registered manifest from a raw one (model checking only: in a recorded    *)
 (* trace the registered manifest is read from state.json)                    *)
-Reg(c, raw) ==
+(* ---- port allocation (runtime.allocate_network_ports; beyond C16) -------- *)
+(* For each protocol: the range of the manifest's environment (uat, prod ->   *)
+(* the prod range, everything else the non-prod range), shuffled; walk it,    *)
+(* bind a socket to each port that is not in use, until there are as many     *)
+(* sockets as the manifest has endpoints of that protocol plus ephemeral      *)
+(* ports; the endpoints get the first ones in manifest order, the rest are    *)
+(* the ephemeral ports; an endpoint with port 0 gets its real port as         *)
+(* container port.  The sockets stay bound (tcp and udp are separate spaces). *)
+PortClass(env) == IF env \in {"uat", "prod"} THEN "prod" ELSE "nonprod"
+NeedOf(raw, proto) ==
+  Cardinality({k \in DOMAIN raw.eps : raw.eps[k].proto = proto})
+  + (IF proto = "tcp" THEN raw.etcp ELSE raw.eudp)
+HeldPorts(s, proto) == {p[3] : p \in {q \in s.ports : q[2] = proto}}
+FreePorts(s, raw, proto) ==
+  (PortPool[PortClass(raw.env)] \ Busy)
+  \ (IF "alloc_ignores_held" \in Defects THEN {} ELSE HeldPorts(s, proto))
+Injective(q) == \A i, j \in DOMAIN q : q[i] = q[j] => i = j
+Allocs(s, c, raw) ==
+  IF AllocAny
+  THEN {[tcp |-> t, udp |-> u] :
+          t \in {q \in [1..NeedOf(raw, "tcp") -> FreePorts(s, raw, "tcp")] : Injective(q)},
+          u \in {q \in [1..NeedOf(raw, "udp") -> FreePorts(s, raw, "udp")] : Injective(q)}}
+  ELSE {[tcp |-> SubSeq(RealPorts[c], 1, NeedOf(raw, "tcp")),
+         udp |-> SubSeq(RealPorts[c], NeedOf(raw, "tcp") + 1,
+                        NeedOf(raw, "tcp") + NeedOf(raw, "udp"))]}
+
+(* registered manifest from a raw one and an allocation *)
+Reg(c, raw, al) ==
   LET ne == Len(raw.eps)
-      rp == RealPorts[c] IN
-  [app |-> raw.app, shared |-> raw.shared, vring |-> raw.vring, pid |-> Pids[c],
+      idx(k) == Cardinality({i \in 1..k : raw.eps[i].proto = raw.eps[k].proto})
+      real(k) == al[raw.eps[k].proto][idx(k)]
+      nep(proto) == Cardinality({k \in 1..ne : raw.eps[k].proto = proto}) IN
+  [app |-> raw.app, shared |-> raw.shared, vring |-> raw.vring, pid |-> Pids[c], env |-> raw.env,
    eps |-> {[name |-> raw.eps[k].name, proto |-> raw.eps[k].proto, infra |-> raw.eps[k].infra,
-             real |-> rp[k],
-             port |-> IF raw.eps[k].port = "0" THEN rp[k] ELSE raw.eps[k].port] : k \in 1..ne},
-   etcp |-> {rp[ne + j] : j \in 1..raw.etcp},
-   eudp |-> {rp[ne + raw.etcp + j] : j \in 1..raw.eudp},
+             real |-> real(k),
+             port |-> IF raw.eps[k].port = "0" THEN real(k) ELSE raw.eps[k].port] : k \in 1..ne},
+   etcp |-> {al.tcp[nep("tcp") + j] : j \in 1..raw.etcp},
+   eudp |-> {al.udp[nep("udp") + j] : j \in 1..raw.eudp},
    pass |-> {Dns[h] : h \in SeqSet(raw.pass)}]
+
+PortsOf(rm, proto) ==
+  {e.real : e \in {x \in rm.eps : x.proto = proto}} \cup (IF proto = "tcp" THEN rm.etcp ELSE rm.eudp)
+
+(* ext.ports.distinct: the ports of one container are pairwise distinct per   *)
+(* protocol (as many different ports as were asked for) and none of them is   *)
+(* bound by another running container.                                        *)
+ExtPortsDistinct(pre, c, raw, rm) ==
+  \A proto \in {"tcp", "udp"} :
+     /\ Cardinality(PortsOf(rm, proto)) = NeedOf(raw, proto)
+     /\ \A q \in pre.ports : (q[1] # c /\ q[2] = proto) => q[3] \notin PortsOf(rm, proto)
+(* ext.ports.assign: `port: 0` endpoints get the allocated port, explicit     *)
+(* ports are kept; every endpoint of the manifest is there.                   *)
+ExtPortsAssign(raw, rm) ==
+  /\ Cardinality(rm.eps) = Len(raw.eps)
+  /\ \A k \in DOMAIN raw.eps : \E e \in rm.eps :
+        /\ e.name = raw.eps[k].name /\ e.proto = raw.eps[k].proto
+        /\ e.port = (IF raw.eps[k].port = "0" THEN e.real ELSE raw.eps[k].port)
+(* ext.ports.range, model checking form (recorded traces compare numbers)     *)
+ExtPortsRangePool(rm) ==
+  /\ PortPool["prod"] \cap PortPool["nonprod"] = {}
+  /\ \A proto \in {"tcp", "udp"} : PortsOf(rm, proto) \subseteq PortPool[PortClass(rm.env)]
 
 (* is rm a registration of raw?  (conformance of the allocator, drift only)  *)
 RegOk(raw, rm) ==
-  /\ rm.app = raw.app /\ rm.shared = raw.shared
+  /\ rm.app = raw.app /\ rm.shared = raw.shared /\ rm.env = raw.env
   /\ Cardinality(rm.eps) = Len(raw.eps)
   /\ \A k \in DOMAIN raw.eps : \E e \in rm.eps :
         /\ e.name = raw.eps[k].name /\ e.proto = raw.eps[k].proto /\ e.infra = raw.eps[k].infra
@@ -152,7 +206,12 @@ Choices(s, ev, c, rm) ==
 (* one call.  rm is only read for Start.                                     *)
 Step(s, ev, c, rm, v) ==
   CASE ev = "Start" ->
-         LET s1 == [s EXCEPT !.man = @ \cup {<<c, rm>>}] IN
+         (* the sockets stay bound while the container runs; with a shared     *)
+         (* network run() closes them before the supervisor starts            *)
+         LET s0 == [s EXCEPT !.man = @ \cup {<<c, rm>>}]
+             s1 == IF rm.shared \/ ~("eps" \in DOMAIN rm) THEN s0
+                   ELSE [s0 EXCEPT !.ports = @ \cup {<<c, "tcp", p>> : p \in PortsOf(rm, "tcp")}
+                                               \cup {<<c, "udp", p>> : p \in PortsOf(rm, "udp")}] IN
          IF rm.shared THEN R(s1, "ok")                 \* run(): `if not app.shared_network`
          ELSE IF v = "-" THEN R(s1, "raise")           \* no network resource
          ELSE R([s1 EXCEPT !.net = @ \cup {<<c, v>>},
@@ -161,7 +220,8 @@ Step(s, ev, c, rm, v) ==
                            !.vring = @ \cup VringRegs(rm, v),
                            !.infra = @ \cup InfraRegs(rm, v)], "ok")
     [] ev = "Finish" ->
-         LET s1 == [s EXCEPT !.fin = @ \cup {<<c, FinCount(s, c) + 1>>}]
+         LET s1 == [s EXCEPT !.fin = @ \cup {<<c, FinCount(s, c) + 1>>},
+                             !.ports = {q \in @ : q[1] # c}]
              m == ManOf(s, c) IN
          IF m.shared \/ ~HasNet(s, c) THEN R(s1, "ok") \* nothing to do / already freed
          ELSE LET w == VipOf(s, c) IN
@@ -174,7 +234,7 @@ Step(s, ev, c, rm, v) ==
          (* v = number of groups done before the error; the network resource  *)
          (* is released last, so an aborted attempt keeps it (a deviation:    *)
          (* release it in a `finally`)                                        *)
-         LET s1 == [s EXCEPT !.failed = @ \cup {c}]
+         LET s1 == [s EXCEPT !.failed = @ \cup {c}, !.ports = {q \in @ : q[1] # c}]
              m == ManOf(s, c) IN
          IF m.shared \/ ~HasNet(s, c) THEN R(s1, "raise")
          ELSE LET w == VipOf(s, c)
@@ -254,21 +314,28 @@ StepEx(pre, ev, c, post) ==
 
 (* ------------------------------------------------------------------------ *)
 Init == st = [rules |-> {}, specs |-> {}, vring |-> {}, infra |-> {}, net |-> {},
-              man |-> {}, fin |-> {}, failed |-> {}, mem |-> {}, bad |-> {}]
+              man |-> {}, fin |-> {}, failed |-> {}, ports |-> {}, mem |-> {}, bad |-> {}]
 
-Advance(ev, c, rm) ==
+Advance(ev, c, rm, extfail) ==
   \E v \in Choices(st, ev, c, rm) :
      LET r == Step(st, ev, c, rm, v)
          p == Remember(st, ev, c, r.post) IN
-     st' = [p EXCEPT !.bad = st.bad \cup StepFail(st, ev, c, r.res, p)]
+     st' = [p EXCEPT !.bad = st.bad \cup StepFail(st, ev, c, r.res, p) \cup extfail]
 
 NoMan == [shared |-> TRUE]
 
+(* AllocPorts(c) is the first half of a start: any outcome of the algorithm   *)
+ExtPortsFail(pre, c, raw, rm) ==
+  FailIf("ext.ports.distinct", ExtPortsDistinct(pre, c, raw, rm))
+  \cup FailIf("ext.ports.assign", ExtPortsAssign(raw, rm))
+  \cup (IF AllocAny THEN FailIf("ext.ports.range", ExtPortsRangePool(rm)) ELSE {})
 Start(c, raw) == /\ c \notin Started(st)
-                 /\ Advance("Start", c, Reg(c, raw))
+                 /\ \E al \in Allocs(st, c, raw) :
+                      LET rm == Reg(c, raw, al) IN
+                      Advance("Start", c, rm, ExtPortsFail(st, c, raw, rm))
 Finish(c) == /\ c \in Started(st)
              /\ FinCount(st, c) < MaxFinish
-             /\ Advance("Finish", c, NoMan)
+             /\ Advance("Finish", c, NoMan, {})
 
 (* one failed attempt per container, only where a finish has work to do *)
 FinishFail(c, j) == /\ MaxFail > 0
@@ -290,6 +357,12 @@ InvClauses == st.bad = {}
 InvState ==
   /\ Functional(st.rules) /\ Functional(st.specs) /\ Functional(st.net)
   /\ \A p, q \in st.net : p[2] = q[2] => p = q
+(* port allocation: sockets of running containers never collide, and every  *)
+(* held port belongs to the range of its container's environment            *)
+InvPorts ==
+  /\ \A p, q \in st.ports : (p[2] = q[2] /\ p[3] = q[3]) => p = q
+  /\ AllocAny => \A q \in st.ports :
+        q[3] \in PortPool[PortClass(ManOf(st, q[1]).env)] /\ q[3] \notin Busy
 (* once every started container has finished the host is as it was at Init   *)
 InvAllGone ==
   (Started(st) # {} /\ Started(st) \subseteq Finished(st)) =>
